@@ -23,9 +23,10 @@ LEVEL_TEXT = ('Deductive proof of the decision: the real acceptance assertion of
               'non-zero encapsulation status, so a refused request performs no dispatch. Text -> segments (port/link strings, chained, JSON, IP links) '
               'and end-to-end accept/refuse pairs are compared with a reference only up to a bound (not counted).')
 LEVEL_NOTE = ('FRAGMENT (T9): only the guard+assert statement of UCMM.request, route paths modelled by identity codes (list equality == code equality); '
-              'the remote-routing branch (self.route table) and UCMM.__init__ configuration loading are bounded-only.')
-TECHNIQUE = 'fragment contract on the UCMM.request acceptance assertion (value model, AST dominance check), z3; bounded reference parser for route-path texts and end-to-end pairs'
-TRUSTED = ['T9 fragment; list equality modelled as equality of identity codes']
+              'the remote-routing branch (self.route table) is bounded-only. FRAGMENT of UCMM.__init__: the statement that loads "[UCMM] Route Path" keeps a personality given at run time and '
+              'otherwise takes what the file says (parse_route_path modelled as any of none / false / 0 / a path; its text handling is bounded-only).')
+TECHNIQUE = 'fragment contracts on the UCMM.request acceptance assertion (value model, AST dominance check) and on the UCMM.__init__ statement that loads the configured route path, z3; bounded reference parser for route-path texts and end-to-end pairs'
+TRUSTED = ['T9 fragment; list equality modelled as equality of identity codes', 'device.parse_route_path / Object.config_str inside UCMM.__init__: assumed to return any of none / false / 0 / a route path (no contract)']
 ASSUMPTIONS = ['text domain: p/l strings, chained p/l/p/l, JSON lists/dicts (scalars 0/false/null raise TypeError in parse_route_path on this tree: outside the domain)']
 
 U = "server/enip/ucmm.py"
@@ -97,8 +98,68 @@ ACCEPT = ("_g_cfg_kind == 0 or "                                               #
           "(_g_cfg_kind == 3 and (_g_req_kind in (0, 1) or (_g_req_kind == 2 and _g_req_code == _g_cfg_code)))")   # configured: none, or exactly it
 
 
+def frag_init_config(eng, fdef):
+    """the statement of UCMM.__init__ that loads the configured route path: `if self.route_path is None: self.route_path = device.parse_route_path(...)`"""
+    target = [n for n in fdef.body if isinstance(n, ast.If) and 'route_path' in ast.unparse(n.test)
+              and any(isinstance(b, ast.Assign) and ast.unparse(b.targets[0]) == 'self.route_path' for b in ast.walk(n))]
+    if len(target) != 1:
+        raise Unsupported('stale contract: UCMM.__init__ has %d statements that conditionally assign self.route_path' % len(target))
+    others = [n for n in ast.walk(fdef) if isinstance(n, (ast.Assign, ast.AugAssign, ast.Delete)) and 'self.route_path' in
+              [ast.unparse(t) for t in (n.targets if not isinstance(n, ast.AugAssign) else [n.target])] and not any(n in list(ast.walk(t)) for t in target)]
+    if others:
+        raise Unsupported('stale contract: UCMM.__init__ assigns self.route_path outside the configuration statement (line %d)' % others[0].lineno)
+    return target
+
+
+def replay_init(model, obligation):
+    """a personality given at run time (class attribute, as main() does for --route-path / --simple) survives the construction of the UCMM object"""
+    import cpppo
+    from cpppo.server.enip import device, ucmm
+    for given in (False, 0, [], [{'port': 1, 'link': 0}], [{'port': 2, 'link': '10.0.0.1'}]):
+        device.lookup_reset()
+        class UCMM(ucmm.UCMM):
+            route_path = given
+        try:
+            obj = UCMM()
+            got = obj.route_path
+        finally:
+            device.lookup_reset()
+        if got != given or type(got) is not type(given):
+            return dict(confirmed=True, function='cpppo.server.enip.ucmm.UCMM.__init__', input='UCMM subclass with route_path = %r' % (given,),
+                        observed='route_path %r after construction' % (got,), required='%r, the personality given at run time' % (given,))
+    return dict(confirmed=False)
+
+
+def init_spec():
+    from pyvc.expr import ModuleHandle
+    from pyvc.vals import OpaqueV
+    from pyvc.pure import USort
+    def parse(eng, recv, args, kw, st, n):
+        # what the configuration file says: nothing | false / 0 | some route path (any of them, unconstrained)
+        sel, code = z3.Int('_g_file_kind'), z3.Int('_g_file_code')
+        st = st.clone()
+        st.pc += [sel >= 0, sel <= 3]
+        eng.init_vals['_g_file_kind'] = IntV(sel)
+        eng.init_vals['_g_file_code'] = IntV(code)
+        yield st, UnionV([(sel == 0, NONE), (sel == 1, BoolV(False)), (sel == 2, IntV(0)), (sel == 3, TupV([IntV(code)]))])
+    cfg = Spec('config_str', ('server/enip/device.py', 'Object.config_str'), params={'a': 'Opaque', 'b': 'Opaque'}, returns='Opaque')
+    KEPT = '_g_cfg_kind == 0 or self.route_path == old(self.route_path)'
+    return Spec('UCMM.__init__[configured route path]', (U, 'UCMM.__init__'), params={}, fragment=frag_init_config,
+                fields={'route_path': config_value},
+                consts={'device': ModuleHandle('device')},
+                callees={'device.parse_route_path': parse, 'self.config_str': cfg, 'config_str': cfg, 'UCMM.config_str': cfg},
+                ensures=[('a personality given at run time (simple device, or a route path) is not replaced by the configuration file', KEPT),
+                         ('without one, the configuration file decides: nothing configured means any route path is accepted',
+                          'implies(_g_cfg_kind == 0 and _g_file_kind == 0, self.route_path is None)'),
+                         ('without one, the configuration file decides: a configured path is the one accepted',
+                          'implies(_g_cfg_kind == 0 and _g_file_kind == 3, self.route_path == (_g_file_code,))')],
+                raises={}, modifies=['self.route_path'], replay=replay_init,
+                note='FRAGMENT: the statement that loads "[UCMM] Route Path"; AST: no other statement of __init__ assigns self.route_path. '
+                     'parse_route_path / config_str are assumed (any value) here; the texts parse_route_path accepts are compared with a reference only up to a bound')
+
+
 def contracts(repo):
-    return [Spec('UCMM.request[route_path acceptance]', (U, 'UCMM.request'), params={}, fragment=frag_accept,
+    return [init_spec(), Spec('UCMM.request[route_path acceptance]', (U, 'UCMM.request'), params={}, fragment=frag_accept,
                  fields={'route_path': config_value},
                  hints=dict(locals={'route_path': path_value('_g_req')}),
                  raises={'AssertionError': 'not (%s)' % ACCEPT},
